@@ -13,6 +13,7 @@ EXPL = ("Decides the history clause: typestate Zero/Unknown over the 64xu64 occu
 
 def run(ctx):
     cfgs = ["rel"] if ctx.tier == "quick" else ["rel", "dbg", "unsafe", "unchecked", "nodef"]
+    ctx.progs(cfgs)  # build all configurations in parallel
     for c in cfgs:
         prog = ctx.prog(c)
         ctx.guard("C17", "typestate", lambda: typestate.clear_before_accumulate(ctx, prog))
